@@ -194,6 +194,15 @@ func dump(ctx *app.RequestContext) (string, int) {
 	ctx.PostArgs().VisitAll(func(k, v []byte) { hs = append(hs, "P:"+string(k)+"="+string(v)) })
 	sort.Strings(hs)
 	sb.WriteString(strings.Join(hs, "|"))
+	// how the context looks things up (functions an earlier handler may have replaced)
+	func() {
+		defer func() {
+			if r := recover(); r != nil {
+				fmt.Fprintf(&sb, "\nlookup: panic %v", r)
+			}
+		}()
+		fmt.Fprintf(&sb, "\nlookup: clientip=%q formvalue(pf)=%q formvalue(pq)=%q", ctx.ClientIP(), ctx.FormValue("pf"), ctx.FormValue("pq"))
+	}()
 	return sb.String(), n
 }
 
@@ -260,6 +269,8 @@ type slot struct {
 	copies   []*app.RequestContext
 	// panicInForEachKey: the dirty handler's last act is a ForEachKey whose callback panics
 	panicInForEachKey bool
+	// setCtxFuncs: the dirty handler installs its own ClientIP / FormValue functions on its context
+	setCtxFuncs bool
 }
 
 type harness struct {
@@ -303,6 +314,11 @@ func newHarnessMode(stream bool) *harness {
 			}
 			if s.keepCopy {
 				s.copies = append(s.copies, ctx.Copy())
+			}
+			if s.setCtxFuncs {
+				// per-request overrides of how the client address and form values are looked up
+				ctx.SetClientIPFunc(func(*app.RequestContext) string { return "6.6.6.6" })
+				ctx.SetFormValueFunc(func(*app.RequestContext, string) []byte { return []byte("LEAKED") })
 			}
 			if s.panicInForEachKey {
 				ctx.Set("dirty-key", 1)
@@ -477,6 +493,7 @@ func work(w *mon.W) {
 		pv, dv := r.Intn(nProbeVariants), r.Intn(3)
 		s.writeErr = -1
 		s.panicInForEachKey = r.Chance(10)
+		s.setCtxFuncs = r.Chance(8)
 		s.keepCopy = r.Chance(4)
 		if s.keepCopy {
 			w.Count("dirty_requests_whose_copy_is_kept_and_written_later", 1)
